@@ -15,7 +15,7 @@ TRUSTED = PC.TRUSTED
 ASSUMPTIONS = PC.ASSUMPTIONS
 EXHAUSTIVE = {}
 SPEC_KINDS = ("isrun", "eq", "hasheq", "eqother", "bind", "waitprocs")
-N = {"quick": 900, "thorough": 14000, "search": 2500}
+N = {"quick": 780, "thorough": 14000, "search": 2500}
 
 
 def gen_tables(impl_dir, out_dir):
@@ -27,7 +27,13 @@ def gen_tables(impl_dir, out_dir):
 def gen_cases(rng, tier):
     from pv import core
     cases = [PC.gen_history(rng, rng.choice([6, 12, 20, 30, 45]), "c02") for _ in range(N[tier])]
-    return core.assign_pyflags(cases, rng, modes=(("-O",), ("-O",), ("-OO",)), frac=0.12)
+    core.assign_pyflags(cases, rng, modes=(("-O",), ("-O",), ("-OO",)), frac=0.12)
+    # wave 8: process-wide "who am I" state.  Every 6th generated history (every shape of the grammar, deterministic stride, not
+    # sampled) is run a second time by an observer whose own os.getpid() is the most used PID of that history, every other
+    # Process(pid) on it in the call form Process(); then the systematic block (aliasing on/off, real os.fork()).
+    twins = [PC.alias_own_pid(c) for c in cases[::(6 if tier == "quick" else 3)]]
+    cases += [t for t in twins if t is not None]
+    return cases + PC.own_pid_block()
 
 
 def judge(case, coq, impl):
